@@ -349,44 +349,54 @@ def run_chunk(task, agg):
         sv = env.load_soupsieve(cache_bound=rec.get('bound'))
         agg.extra.append(minimise_record(sv, rec, task.get('budget', 300)))
         return
+    from sim import runner
     cfg = task['config']
     sv = env.load_soupsieve(cache_bound=cfg['bound'])
     for i in task['indices']:
-        seed = _derive(task['verif_seed'], cfg['name'], i)
-        res = run_seeded(sv, seed, cfg['mode'], cfg['bound'])
-        if res.get('discarded'):
-            agg.count('discarded:' + res['discarded'])
-            agg.digests[f"{cfg['name']}:{i}"] = 'discarded'
-            continue
-        agg.runs += 1
-        agg.digests[f"{cfg['name']}:{i}"] = res['digest']
-        agg.count('steps', res['steps'])
-        agg.count('switches', res['switches'])
-        agg.count('preempts', res['preempts'])
-        agg.count('ops', res['nops'])
-        agg.count('policy:' + res['policy']['name'])
-        agg.count('mode:' + cfg['mode'])
-        agg.count('bound:%s' % cfg['bound'])
-        agg.count('threads:%d' % res['nthreads'])
-        for k, v in res['probes'].items():
-            agg.count('probe:' + k, v)
-            agg.count('runs_with:' + k)
-        if res['overlap']:
-            agg.add_to_set('sigs', res['sig'])
-        for s in res['sites']:
-            agg.add_to_set('sites', tuple(s))
-        if res['cache'] and res['cache'][0] >= res['cache'][1]:
-            agg.count('probe:cache_full_at_end')
-        if len(agg.samples) < 2 and res['overlap']:
-            agg.samples.append({
-                'config': cfg['name'], 'index': i, 'run_seed': seed, 'policy': res['policy'],
-                'programs': res['workload']['programs'],
-                'keys': [k['pattern'] for k in res['workload']['keys']],
-                'segments_head': res['segments'][:12], 'n_segments': len(res['segments']),
-                'steps': res['steps'], 'digest': res['digest'],
-            })
-        if res['violation']:
-            agg.violations.append(make_record(res, cfg, i))
+        agg.merge(runner.isolated(_one_run, sv, task['verif_seed'], cfg, i, len(agg.samples)))
+
+
+def _one_run(sv, verif_seed, cfg, i, nsamples):
+    """One seeded run, in a forked child (see runner.isolated); returns a small Agg."""
+
+    from sim import runner
+    agg = runner.Agg()
+    seed = _derive(verif_seed, cfg['name'], i)
+    res = run_seeded(sv, seed, cfg['mode'], cfg['bound'])
+    if res.get('discarded'):
+        agg.count('discarded:' + res['discarded'])
+        agg.digests[f"{cfg['name']}:{i}"] = 'discarded'
+        return agg
+    agg.runs += 1
+    agg.digests[f"{cfg['name']}:{i}"] = res['digest']
+    agg.count('steps', res['steps'])
+    agg.count('switches', res['switches'])
+    agg.count('preempts', res['preempts'])
+    agg.count('ops', res['nops'])
+    agg.count('policy:' + res['policy']['name'])
+    agg.count('mode:' + cfg['mode'])
+    agg.count('bound:%s' % cfg['bound'])
+    agg.count('threads:%d' % res['nthreads'])
+    for k, v in res['probes'].items():
+        agg.count('probe:' + k, v)
+        agg.count('runs_with:' + k)
+    if res['overlap']:
+        agg.add_to_set('sigs', res['sig'])
+    for s in res['sites']:
+        agg.add_to_set('sites', tuple(s))
+    if res['cache'] and res['cache'][0] >= res['cache'][1]:
+        agg.count('probe:cache_full_at_end')
+    if nsamples < 2 and res['overlap']:
+        agg.samples.append({
+            'config': cfg['name'], 'index': i, 'run_seed': seed, 'policy': res['policy'],
+            'programs': res['workload']['programs'],
+            'keys': [k['pattern'] for k in res['workload']['keys']],
+            'segments_head': res['segments'][:12], 'n_segments': len(res['segments']),
+            'steps': res['steps'], 'digest': res['digest'],
+        })
+    if res['violation']:
+        agg.violations.append(make_record(res, cfg, i))
+    return agg
 
 
 def _derive(verif_seed, name, i):
@@ -517,9 +527,10 @@ def minimise_record(sv, rec, budget_n=600, wall_s=120.0):
         if time.time() > t_end:
             b.left = 0
             return False
+        from sim import runner
         try:
-            res = replay(sv, cand)
-        except sched.HarnessError:
+            res = runner.isolated(replay, sv, cand)
+        except RuntimeError:
             return False
         if res.get('discarded') or not res['violation']:
             return False
